@@ -79,7 +79,7 @@ func c06Send(env *menv.Env, method, path string, body []byte, ctype string) c06h
 }
 
 func runC06(r *core.Run) {
-	r.Rule("running histories (all quote / proof states occur); (1) every typed API call of generated honest+adversarial traffic is wrapped: if it returns an error the digest of all tables (read through a separate read-only connection, normalised for lazily discovered payments) must equal the digest before; (2) at checkpoints every endpoint gets the structural mutants of a currently valid JSON request (each list emptied, each field dropped / null / retyped / garbled: odd-length hex, non-hex, 70k and 1MB strings, negative / 2^64 / fractional numbers, duplicated keys, truncated or empty body, trailing garbage, wrong content type) through the HTTP handler: a 4xx answer must leave the digest unchanged, no request may panic or hang, and afterwards the corrected request (same inputs, same paid quote) must succeed; non-trivial = distinct (endpoint, mutation description, outcome class) combinations and refused typed calls compared")
+	r.Rule("running histories (all quote / proof states occur); (1) every typed API call of generated honest+adversarial traffic is wrapped: if it returns an error the digest of all tables (read through a separate read-only connection, normalised for lazily discovered payments) must equal the digest before; (2) at checkpoints every endpoint gets the structural mutants of a currently valid JSON request (each list emptied, each field dropped / null / retyped / garbled: odd-length hex, non-hex, 70k and 1MB strings, negative / 2^64 / fractional numbers, duplicated keys, truncated or empty body, trailing garbage, wrong content type) through the HTTP handler: a 4xx answer must leave the digest unchanged, no request may panic or hang, and afterwards the corrected request (same inputs, same paid quote) must succeed; among the request templates is the mint request for a NUT-20 locked quote (every mutant of its signature), and every hex string also appears one byte shorter / longer, all ff, all zero, doubled, with its second half ff; non-trivial = distinct (endpoint, mutation description, outcome class) combinations and refused typed calls compared")
 	r.Assume("digest = every row of every table ordered by primary key; a handler that does not answer within 60 s is a hang")
 	nh, ncp := pick(r, 4, 24), pick(r, 3, 10)
 	core.Parallel(nh, 8, func(h int) {
